@@ -137,6 +137,20 @@ def gen_cases(tier, rng):
                         raw = [('a', 'http://ignored.test/first')] + list(inj) + [qb, qa] + list(opt)
                     up = {'http://site.test/a': sc.ok_up(pa, cs), 'https://site.test/b': sc.ok_up(pb, cs, extra=[('X-Served-By', 'b')])}
                     cases.append({'differ': differ, 'raw_query': raw, 'upstream': up, 'files': {}, 'differ_mode': 'real'})
+    # the two sides are independent: identical bytes under different declared charsets (each side is decoded with its own),
+    # and the same URL on both sides
+    same = ['<p>caf\u00e9 na\u00efve \u0159\u017e</p><a href="/x">\u00e9</a>'.encode('utf-8'), '<p>\u043f\u0440\u0438\u0432\u0435\u0442 \u043c\u0438\u0440</p>'.encode('koi8-r')]
+    pairs_cs = [('text/html; charset=utf-8', 'text/html; charset=iso-8859-2'), ('text/html; charset=koi8-r', 'text/html; charset=windows-1251'),
+                ('text/html', 'text/html; charset=iso-8859-1'), ('text/html; charset=iso-8859-1', 'text/html; charset=utf-8')]
+    for differ in sc.REGISTERED:
+        for body in same:
+            for ca, cb in pairs_cs:
+                up = {'http://site.test/a': sc.ok_up(body, ca), 'https://site.test/b': sc.ok_up(body, cb)}
+                cases.append({'differ': differ, 'raw_query': [('a', 'http://site.test/a'), ('b', 'https://site.test/b'), ('ignore_decoding_errors', 'true')],
+                              'upstream': up, 'files': {}, 'differ_mode': 'real'})
+        for (pa, pb) in PAGES[:2]:
+            cases.append({'differ': differ, 'raw_query': [('a', 'http://site.test/same'), ('b', 'http://site.test/same')],
+                          'upstream': {'http://site.test/same': sc.ok_up(pa, 'text/html; charset=utf-8')}, 'files': {}, 'differ_mode': 'real'})
     # stubbed differs: only the argument binding matters; includes a differ result that sets its own "type"
     for differ in sc.REGISTERED:
         for inj in INJECT:
